@@ -49,9 +49,22 @@ func VerifC19Blocklists() {
 		verifnd.Assert(len(c.CovertBlocklistSubnets) > 0, "C19.shipped-config-read")
 		verifnd.Finding("C19-F1", true)
 	} else {
-		c.CovertBlocklistSubnets, bad[0] = verifList("block", 2)
-		c.CovertAllowlistSubnets, bad[1] = verifList("allow", 2)
-		c.PhantomBlocklist, bad[2] = verifList("phantom", 1)
+		nb, na, np := 2, 2, 1
+		if verifnd.Thorough() {
+			// thorough: one list at a time grows to three entries while the others shrink to
+			// one (the three lists are parsed by independent loops)
+			switch verifnd.Choose("long-list", 3) {
+			case 0:
+				nb, na, np = 3, 1, 1
+			case 1:
+				nb, na, np = 1, 3, 1
+			case 2:
+				nb, na, np = 1, 1, 3
+			}
+		}
+		c.CovertBlocklistSubnets, bad[0] = verifList("block", nb)
+		c.CovertAllowlistSubnets, bad[1] = verifList("allow", na)
+		c.PhantomBlocklist, bad[2] = verifList("phantom", np)
 		verifnd.Finding("C19-F1", bad[0] || bad[1] || bad[2])
 	}
 	err := verifParseBlocklists(c)
@@ -86,7 +99,11 @@ func VerifC19Reload() {
 	rm.PrintAndReset(logger)
 	rm.RemoveOldRegistrations()
 	GetProxyStats().PrintAndReset(logger)
-	reloads := 1 + verifnd.Choose("reloads", 2)
+	maxReloads := 2
+	if verifnd.Thorough() {
+		maxReloads = 3
+	}
+	reloads := 1 + verifnd.Choose("reloads", maxReloads)
 	for i := 0; i < reloads; i++ {
 		nc := &RegConfig{CovertBlocklistSubnets: []string{"172.16.0.0/12"}, PhantomBlocklist: []string{"198.51.100.0/24"}}
 		if verifnd.Bool("geoip-configured") {
